@@ -571,6 +571,8 @@ func (r *FileRestorer) restoreNode(n dst.Node, parentName, parentField, parentFi
 		if !n.Implicit {
 			out.Semicolon = r.cursor
 			r.cursor += token.Pos(len(token.ARROW.String()))
+		} else {
+			out.Semicolon = r.cursor
 		}
 
 		// Decoration: End
